@@ -109,6 +109,9 @@ def c11(rep, tier):
                     if tt in tmax and pt in tmax and tmax[tt] < tmax[pt] and strip_casts(r_).get('d') == mm.passes['d']:
                         bound_cast = tt
                 r_ = r_['e']
+        if pt in tmax and not pt.startswith('unsigned'):
+            A.violation('apply_macros: budget type', 'the budget parameter has the signed type %s: a caller\'s budget of %d or more (UINT_MAX for "no limit") arrives negative, no pass is made and input that '
+                        'still contains macro uses is returned without the too-many-substitutions error' % (pt, tmax[pt] + 1), W(am, mm.budget, mm.facts), witness={'budget': 'UINT_MAX'})
         if bound_cast:
             A.violation('apply_macros: loop bound', 'the budget (%s) is converted to %s for the comparison: a budget above %d becomes negative or small, the loop does not run and an expansion '
                         'that is not finished is returned without the too-many-substitutions error' % (pt, bound_cast, tmax[bound_cast]), W(am, mm.budget, mm.facts),
@@ -382,11 +385,11 @@ def c11(rep, tier):
     forwarded_errors_rule(Cc, pf, parse)
     D = rep.rule('C11.d', 'parse() passes a positive constant budget', floor=1)
     calls = [e for e in walk_all_exprs(parse['body']) if is_call(e, 'Theo::apply_macros')]
-    if len(calls) != 1:
-        D.unknown('parse', '%d apply_macros calls' % len(calls))
-    else:
-        a = strip_casts(calls[0]['args'][2])
-        D.check(a.get('k') == 'int' and a['v'] >= 1, 'parse: budget', 'constant %s' % a.get('v'), 'budget argument is %s' % show(a), W(parse, calls[0], pf))
+    if not calls:
+        D.unknown('parse', 'no apply_macros call')
+    for i_, c_ in enumerate(calls):
+        a = strip_casts(c_['args'][2])
+        D.check(a.get('k') == 'int' and a['v'] >= 1, 'parse: budget' + ('' if len(calls) == 1 else ' (call %d)' % (i_ + 1)), 'constant %s' % a.get('v'), 'budget argument is %s' % show(a), W(parse, c_, pf))
 
 
 def forwarded_errors_rule(R, pf, parse):
@@ -744,6 +747,25 @@ def c10(rep, tier):
         D.check(not extra, 'apply_macros: one instantiation per pass number', 'get_replacement is enclosed by the budget loop and the bin loop only',
                 'get_replacement runs inside a further loop (line %s): several expansion steps share one pass number and hence their temporaries' % (extra[0]['loc'][0] if extra else ''),
                 W(mm.am, calls[0], mm.facts))
+    # the pass numbers of one token stream are handed out once: the front end expands a stream with one call of apply_macros, not with a second
+    # call on the output of the first (whose counter starts at 0 again while temporaries of the first round are still in the stream)
+    try:
+        pf10 = Facts(['Compiler/src/parse.cpp', 'Compiler/src/compiler.cpp'])
+        rep.note_facts(pf10)
+        for f10 in pf10.functions:
+            if f10.get('body') is None or f10['tmpl'] == 'pattern' or not f10['file'].endswith(('parse.cpp', 'compiler.cpp')):
+                continue
+            acs = [e for e in walk_all_exprs(f10['body']) if is_call(e, 'Theo::apply_macros')]
+            for e in acs:
+                src = show(e['args'][0]) if e.get('args') else ''
+                in_loop = any(st['k'] in ('for', 'while', 'do', 'rangefor') and any(x is e for x in walk_all_exprs(st.get('body'))) for st in walk_stmts(f10['body']))
+                again = 'transformed_sequence' in src
+                D.check(not again and not in_loop, '%s: apply_macros(%s, ...)' % (f10['q'].split('::')[-1], src[:30]), 'one application per token stream',
+                        'macro application is run again on %s: the pass counter restarts at 0, so a temporary #n of the second round gets the name of a temporary of the first round that is '
+                        'still in the stream' % ('a stream that was already expanded' if again else 'the stream inside a loop'), W(f10, e, pf10),
+                        witness={'input': 'a program that needs more than 1024 rewrites and uses one macro with #n at equal step numbers of both rounds'} if (again or in_loop) else None)
+    except AnalysisBroken as ex:
+        D.unknown('front end: applications of apply_macros', str(ex))
     D.check(okd, 'apply_macros: pass argument', 'get_replacement(..., %s)' % (cv['name'] if cv else '?'), 'pass argument is %s' % (show(calls[0]['args'][pi]) if calls and len(calls[0]['args']) > pi else None),
             W(mm.am, calls[0] if calls else None, mm.facts))
 
@@ -941,6 +963,29 @@ def c09(rep, tier):
                         txt = show(n)
                         ok = False
                         why = 'index is %s' % txt
+                        # the function that turns the digits into the index converts the whole string (strtol & co.), not a part of it
+                        n0 = strip_casts(strip_copies(n))
+                        if n0 is not None and n0.get('k') == 'call' and n0.get('callee_in_repo') and n0.get('obj') is None:
+                            hconv = mm.facts.fn(n0.get('callee'), optional=True)
+                            if hconv is not None and hconv.get('body') is not None:
+                                bodies_ = [hconv['body']]
+                                for x in walk_all_exprs(hconv['body']):
+                                    # a conversion wrapped in a further in-repo helper (parseDecimal(tok))
+                                    if x.get('k') == 'call' and x.get('callee_in_repo') and x.get('obj') is None:
+                                        h2 = mm.facts.fn(x.get('callee'), optional=True)
+                                        if h2 is not None and h2.get('body') is not None and h2 is not hconv:
+                                            bodies_.append(h2['body'])
+                                convs = [x for b_ in bodies_ for x in walk_all_exprs(b_) if x.get('k') == 'call' and (x.get('callee') or '').split('::')[-1] in
+                                         ('strtol', 'strtoll', 'strtoul', 'strtoull', 'stoi', 'stol', 'stoll', 'stoul', 'atoi', 'atol', 'from_chars')]
+                                single = [x for x in walk_all_exprs(hconv['body']) if is_call(x, '::operator[]') and x.get('args') and strip_casts(x['args'][0]).get('k') == 'int' and
+                                          strip_casts(x['obj']).get('dk') == 'param']
+                                single += [x for x in walk_all_exprs(hconv['body']) if (is_call(x, '::front') or is_call(x, '::back')) and x.get('obj') is not None and strip_casts(x['obj']).get('dk') == 'param']
+                                if not convs and single:
+                                    E.violation('get_replacement: $n digits', '%s() computes the index from one character of the digit string (%s) instead of converting the whole string: '
+                                                '$10 and above denote another slot than the one extract_macros validated' % (hconv['q'], show(single[0])), W(hconv, single[0], mm.facts),
+                                                witness={'macro': 'a macro with eleven slots whose body uses $10'})
+                                elif not convs:
+                                    E.unknown('get_replacement: $n digits', '%s() does not call a string-to-integer conversion: how the index is computed was not recognised' % hconv['q'])
                         subs = [x for x in walk_expr(n) if is_call(x, '::substr') and loopvar['name'] + '.text' in show(x.get('obj') or {})]
                         if len(subs) == 1 and subs[0].get('args'):
                             a0 = strip_casts(subs[0]['args'][0])
@@ -1071,6 +1116,7 @@ def c09(rep, tier):
     c09_detector_grammar(rep, mm)
     G = rep.rule('C09.g', 'a detector scans start positions ascending and returns the first accepted, constraint-satisfying match', floor=1)
     detect_rule(G, mm)
+    table_columns_rule(G, mm)
 
 
 def insertion_index_range_rule(E, mm):
@@ -1217,6 +1263,28 @@ def insertion_index_range_rule(E, mm):
             continue
         inst = 'extract_macros: rejected $n neutralised (%s)' % show(x)[:40]
         if decl.get('is_ref') and not decl.get('const'):
+            # a reference - into what?  follow the loops it iterates: every level has to be a reference as well, otherwise the
+            # token that is repaired lives in a copy of the definition
+            copy_level = None
+            cur = root['d']
+            for _ in range(4):
+                lp_ = [st for st in walk_stmts(f['body']) if st['k'] == 'rangefor' and st['var']['d'] == cur]
+                if not lp_:
+                    break
+                rr, _p = field_chain(lp_[0]['range'])
+                rr = strip_casts(rr) if rr is not None else None
+                if rr is None or rr.get('k') != 'ref' or rr.get('dk') != 'var':
+                    break
+                outer = [st for st in walk_stmts(f['body']) if st['k'] == 'rangefor' and st['var']['d'] == rr.get('d')]
+                if outer and not outer[0]['var'].get('is_ref'):
+                    copy_level = outer[0]['var']
+                    break
+                cur = rr.get('d')
+            if copy_level is not None:
+                E.violation(inst, '%s refers into %s, which is a by-value copy of the stored definition (the loop variable is declared without &): the rejected $n stays in the stored '
+                            'macro body, and get_replacement indexes template_token_indices with it when the macro is used' % (root['name'], copy_level['name']), W(f, x, mm.facts),
+                            witness={'macro': 'DEFINE answer AS $7 END DEFINE  x0 := answer'})
+                continue
             E.ok(inst, '%s is a reference to the stored token' % root['name'], W(f, x, mm.facts))
             continue
         # a by-value loop variable is a fresh copy in every iteration: only uses later in the same iteration count
@@ -1230,6 +1298,29 @@ def insertion_index_range_rule(E, mm):
                         witness={'macro': 'DEFINE answer AS $7 END DEFINE  x0 := answer'})
         else:
             E.unknown(inst, '%s is a copy that is used afterwards: cannot see whether the neutralised token is stored back' % root['name'], W(f, x, mm.facts))
+
+
+def table_columns_rule(G, mm):
+    """The action table of a detector has max_used_terminal + 1 columns and the driver rejects when the look-ahead's kind has no column.
+    Every token kind that can stand behind a macro use therefore has to be no larger than the largest terminal of the slot grammar."""
+    try:
+        prods = detector_grammar(mm)
+    except AnalysisBroken as ex:
+        G.unknown('detector tables: columns', str(ex))
+        return
+    en = mm.facts.enum('Theo::Token::Type')
+    vals = dict(en['enumerators'])
+    terms = set(x for alts in prods.values() for alt in alts for x in alt if x in vals)
+    if not terms or any(v is None for v in vals.values()):
+        G.unknown('detector tables: columns', 'terminals of the slot grammar / enumerator values not resolved')
+        return
+    width = max(vals[t] for t in terms)
+    beyond = sorted((v, k) for k, v in vals.items() if v > width and k not in ('UNKNOWN',))
+    G.check(not beyond, 'detector tables: a column for every token kind', 'the largest terminal of the slot grammar (%s = %d) is the largest token kind except UNKNOWN' % (
+        max(terms, key=lambda t: vals[t]), width),
+        'token kind(s) %s have values above the largest terminal of the slot grammar (%d): the action table has no column for them and the driver rejects - a macro use '
+        'that is followed by such a token is not recognised' % ([k for v, k in beyond][:6], width), W(mm.facts.fn('MacroDetector::MacroDetector'), None, mm.facts),
+        witness={'input': 'a macro use directly followed by %s' % beyond[0][1]} if beyond else None)
 
 
 def detect_rule(G, mm):
@@ -1304,7 +1395,59 @@ def detect_rule(G, mm):
         else:
             unk.append('loop bound %s' % show(c))
     else:
-        unk.append('loop condition %s' % (show(c) if c else None))
+        # any other arithmetic condition over the counter, the number of input tokens N and the number of pattern symbols K is
+        # evaluated: every start position at which K tokens still fit (N - i >= K; a match needs a token per pattern symbol, the slot
+        # grammar has no empty derivations) has to be tried, for N in 3..7 and K in 1..3
+        class _NoEval(Exception):
+            pass
+
+        def cval(e, i_, N_, K_, depth=0):
+            e = strip_casts(e)
+            if e is None or depth > 8:
+                raise _NoEval('?')
+            k_ = e.get('k')
+            if k_ == 'paren':
+                return cval(e['e'], i_, N_, K_, depth)
+            if k_ == 'int':
+                return e['v']
+            if k_ == 'ref' and e.get('d') == cv['d']:
+                return i_
+            if is_call(e, '::size') and e.get('obj') is not None:
+                o_ = strip_casts(e['obj'])
+                if o_.get('d') == inp['d']:
+                    return N_
+                if show(o_).replace('this->', '').endswith('md.rule'):
+                    return K_
+                raise _NoEval(show(e))
+            if k_ == 'ref' and e.get('dk') == 'var':
+                o_ = mm.M.origin(det, e)
+                if o_ is not None and o_ is not e:
+                    return cval(o_, i_, N_, K_, depth + 1)
+                raise _NoEval(show(e))
+            if k_ == 'bin' and e['op'] in ('+', '-', '*', '<', '<=', '>', '>=', '==', '!=', '&&', '||'):
+                a_, b_ = cval(e['l'], i_, N_, K_, depth + 1), cval(e['r'], i_, N_, K_, depth + 1)
+                import operator as _o
+                return {'+': _o.add, '-': _o.sub, '*': _o.mul, '<': _o.lt, '<=': _o.le, '>': _o.gt, '>=': _o.ge, '==': _o.eq, '!=': _o.ne,
+                        '&&': lambda x, y: bool(x) and bool(y), '||': lambda x, y: bool(x) or bool(y)}[e['op']](a_, b_)
+            raise _NoEval(show(e)[:40])
+        try:
+            missed = None
+            for N_ in range(3, 8):
+                for K_ in range(1, 4):
+                    i_ = 0
+                    tried = set()
+                    while i_ <= N_ + 1 and cval(c, i_, N_, K_):
+                        tried.add(i_)
+                        i_ += 1
+                    need = [j for j in range(N_) if N_ - j >= K_]
+                    for j in need:
+                        if j not in tried and missed is None:
+                            missed = (N_, K_, j)
+            if missed:
+                why.append('the scan does not try every start position: with %d input tokens and a pattern of %d symbols position %d is never tried (condition %s) although the pattern fits '
+                           'there - a macro use at the end of the text stays unexpanded' % (missed[0], missed[1], missed[2], show(c)))
+        except _NoEval as ex:
+            unk.append('loop condition %s (%s)' % (show(c) if c else None, ex))
     inc = strip_casts(L.get('inc')) if L.get('inc') else None
     if inc is not None and inc.get('k') == 'un' and inc['op'] == '++' and strip_casts(inc['e']).get('d') == cv['d']:
         pass
